@@ -285,6 +285,13 @@ theorem runN_last (s s' : State) (n : Nat) (r : StepResult) (h : runN n s = .con
   rw [runN_add n 1 _ _ h]
   cases r <;> simp_all [runN]
 
+theorem finish_done (p : Program) (s0 : State) (b : Frame) (n t : Nat) (v : Value) (V' : List Value)
+    (σ' : List Block) (out' : String)
+    (hn : runN n s0 = .cont (Q p [F b [] (v :: V') σ'] t out')) :
+    ∃ m s, runN m s0 = .done s v ∧ s.out = out' := by
+  have hd := step_done p (F b [] (v :: V') σ') v V' t out' rfl rfl
+  exact ⟨n + 1, _, runN_last _ _ n _ hn hd (by intro x; simp), by simp [setTop, Q]⟩
+
 /-- Toplevel expressions (all used): the values pile up on the value stack, the last one on top. -/
 theorem sim_top (p : Program) (ev : Ev) (ih : IH p ev) (b : Frame) :
     ∀ (es : List Expr) (last : Value) (σ : List Block) (out : String) (V : List Value),
